@@ -87,6 +87,24 @@ def check_program(idx, src, tmp, seeds, helpers=None):
             bom_bytes = f.read()
         runs[("path, file with a byte order mark", seeds[0])] = cli([bom_path], d, dict(extra, PYTHONHASHSEED=seeds[0]))
         runs[("b64 of the file with a byte order mark", seeds[0])] = cli(["-s", base64.b64encode(bom_bytes).decode()], d, dict(extra, PYTHONHASHSEED=seeds[0]))
+        # ... and saved in another encoding, declared in its first line (PEP 263); a name that is not ASCII makes the bytes differ
+        cookie_path = os.path.join(d, f"prog_{idx}_latin.py")
+        cookie_text = "# -*- coding: latin-1 -*-\n" + src.replace("Party(name=\"", "Party(name=\"é", 1).replace("Party(name='", "Party(name='é", 1)
+        try:
+            cookie_bytes = cookie_text.encode("latin-1")
+        except UnicodeEncodeError:
+            cookie_bytes = None
+        if cookie_bytes is not None:
+            with open(cookie_path, "wb") as f:
+                f.write(cookie_bytes)
+            runs[("path, file in latin-1 with an encoding declaration", seeds[0])] = cli([cookie_path], d, dict(extra, PYTHONHASHSEED=seeds[0]))
+            runs[("b64 of the latin-1 file", seeds[0])] = cli(["-s", base64.b64encode(cookie_bytes).decode()], d, dict(extra, PYTHONHASHSEED=seeds[0]))
+            # the same declaration on bytes that happen to be UTF-8: the interpreter reads them as latin-1 all the same
+            odd_path = os.path.join(d, f"prog_{idx}_declared_latin.py")
+            with open(odd_path, "wb") as f:
+                f.write(cookie_text.encode("utf-8"))
+            runs[("path, UTF-8 bytes declared latin-1", seeds[0])] = cli([odd_path], d, dict(extra, PYTHONHASHSEED=seeds[0]))
+            runs[("b64 of the UTF-8 bytes declared latin-1", seeds[0])] = cli(["-s", base64.b64encode(cookie_text.encode("utf-8")).decode()], d, dict(extra, PYTHONHASHSEED=seeds[0]))
     runs[("b64+timer", seeds[0])] = cli(["-s", b64], d, dict(extra, PYTHONHASHSEED=seeds[0], NADA_TIMER="1"))
     parsed = {}
     for k, (rc, out) in runs.items():
@@ -112,6 +130,18 @@ def check_program(idx, src, tmp, seeds, helpers=None):
             dd = cm.first_diff(strip_locations(p0["_mir"]), strip_locations(pk["_mir"]))
             if dd:
                 viol.append(("entry-points", f"MIR differs between path and {k[0]}: {dd}"))
+    for what, kp, kb in (("file in latin-1 with an encoding declaration", "path, file in latin-1 with an encoding declaration", "b64 of the latin-1 file"),
+                         ("UTF-8 bytes with a latin-1 encoding declaration", "path, UTF-8 bytes declared latin-1", "b64 of the UTF-8 bytes declared latin-1")):
+        pl, bl = parsed.get((kp, seeds[0])), parsed.get((kb, seeds[0]))
+        if pl is None or bl is None:
+            continue
+        if pl["result"] != bl["result"]:
+            viol.append(("entry-points", f"{what}: path entry point: {pl['result']} ({pl.get('reason', '')[:80]}), base64 of the same bytes: "
+                                         f"{bl['result']} ({bl.get('reason', '')[:80]})"))
+        elif pl["result"] == "Success":
+            dd = cm.first_diff(strip_locations(pl["_mir"]), strip_locations(bl["_mir"]))
+            if dd:
+                viol.append(("entry-points", f"{what}: MIR differs between path and base64 of the same bytes: {dd}"))
     if parsed.get(("path+timer", seeds[0])) and p0 and runs[("path+timer", seeds[0])][1] != base:
         viol.append(("timers", "stdout with NADA_TIMER=1 differs from stdout without"))
     return viol, (p0 or {}).get("result")
